@@ -317,7 +317,8 @@ Fixpoint full_view (fuel : nat) (w : world) (cur : bytes) (n : node) {struct fue
   end.
 
 (* =====================================================================================================================
-   cgnsdiff (tools/cgnsdiff.c), whole-file mode (no dataset arguments => recurse = 1), options -d and -f
+   cgnsdiff (tools/cgnsdiff.c): options -c -i -d -f (-q sets a variable nobody reads; -t: compare_doubles below),
+   whole-file mode (recurse = 1) and dataset mode with / without -r
    ===================================================================================================================== *)
 Inductive dline :=
 | DLabel (p1 p2 : bytes)        (* "%s <> %s : labels differ" *)
@@ -329,6 +330,7 @@ Inductive dline :=
 | DRight (p : bytes)            (* "> %s/%s" *)
 | DErrExit                      (* err_exit: a cgio call failed (e.g. a link that cannot be resolved) *)
 | DPathOverflow                 (* sprintf past char path1[1024] / path2[1024] *)
+| DOutOfBounds                  (* children2[33*n2] read with n2 >= nc2 (only when normalised names collide) *)
 | DFuel.                        (* model budget exhausted (excluded by the theorems) *)
 
 (* data_size (cgnsdiff.c:63-101): exact two-character type names; 0 for anything else or ndim < 1 *)
@@ -368,24 +370,84 @@ Fixpoint bytes_ltb (a b : bytes) : bool :=
   | _ :: _, [] => false
   | x :: a', y :: b' => if x <? y then true else if y <? x then false else bytes_ltb a' b'
   end.
-(* qsort (children, nc, 33, sort_children) *)
-Fixpoint insert_name (x : bytes) (l : list bytes) : list bytes :=
+(* ---- name normalisation: copy_name (cgnsdiff.c:227-253) ------------------------------------------------------------------
+   nospace (-i): characters with isspace() are dropped; nocase (-c): tolower() on every (remaining) character. *)
+Definition isspace (c : Z) : bool := (c =? 32) || ((9 <=? c) && (c <=? 13)).
+Definition tolower (c : Z) : Z := if (65 <=? c) && (c <=? 90) then c + 32 else c.
+Definition copy_name (nocase nospace : bool) (nm : bytes) : bytes :=
+  if nospace then
+    if nocase then map tolower (filter (fun c => negb (isspace c)) nm)
+    else filter (fun c => negb (isspace c)) nm
+  else if nocase then map tolower nm
+  else nm.
+
+(* the options of a run *)
+Record dopts := mkO { d_data : bool;       (* -d *)
+                      d_follow : bool;     (* -f *)
+                      d_case : bool;       (* -c *)
+                      d_space : bool;      (* -i *)
+                      d_recurse : bool }.  (* -r, or no dataset arguments *)
+(* sort_children (the qsort comparator) and find_name each call copy_name on what they compare: TWO uses of the
+   normalisation that must agree -- bisection over a list is only correct when the list is sorted by the key the
+   search compares (KeysAgree in CopyProofs.v is that obligation) *)
+Definition sort_key (o : dopts) : bytes -> bytes := copy_name (d_case o) (d_space o).
+Definition find_key (o : dopts) : bytes -> bytes := copy_name (d_case o) (d_space o).
+
+(* the matching code before / after the repair 180fd8e:
+   MOld : find_name probes the first AND the last entry, bisects, and answers the entry the bisection hits; the merge
+          loop searches the WHOLE second list for every child of the first;
+   MCur : find_name probes the first entry, bisects, and walks back to the FIRST entry of a run of equal keys; the loop
+          searches only the entries of the second list that are not paired yet (and nothing once they are used up). *)
+Inductive mver := MOld | MCur.
+
+(* qsort (children, nc, 33, sort_children): strcmp (key v1, key v2).  glibc's qsort is a merge sort (stable); the
+   order of entries with EQUAL keys matters only when normalised names collide *)
+Section SortBy.
+Variable m : mver.
+Variable key : bytes -> bytes.
+Fixpoint insert_name_by (x : bytes) (l : list bytes) : list bytes :=
   match l with
   | [] => [x]
-  | y :: rest => if bytes_ltb y x then y :: insert_name x rest else x :: l
+  | y :: rest => if bytes_ltb (key y) (key x) then y :: insert_name_by x rest else x :: l
   end.
-Fixpoint sort_names (l : list bytes) : list bytes :=
-  match l with [] => [] | x :: rest => insert_name x (sort_names rest) end.
+Fixpoint sort_names_by (l : list bytes) : list bytes :=
+  match l with [] => [] | x :: rest => insert_name_by x (sort_names_by rest) end.
 
-(* find_name (cgnsdiff.c:264-286): position of name in the sorted list, -1 when absent.  The C code looks at the
-   first and the last entry and then bisects; on a sorted list without duplicates that is the position computed
-   here by a scan (the bisection itself is not modelled; cgnsdiff's output is compared on every run). *)
-Fixpoint find_name_from (name : bytes) (l : list bytes) (i : Z) : Z :=
+(* find_name (cgnsdiff.c:264-294): p1 = key name; the first (MOld: and the last) entry is probed, then
+   while (lo <= hi) { mid = (lo + hi) >> 1; cmp = strcmp (p1, key list[mid]);
+                      0 -> MOld: return mid;  MCur: while (mid > 0 && key list[mid-1] == p1) mid--; return mid;
+                      > 0 -> lo = mid + 1; else hi = mid - 1 } *)
+Fixpoint walk_back (fuel : nat) (p1 : bytes) (l : list bytes) (mid : Z) : Z :=
+  match fuel with
+  | O => mid
+  | S f => if (0 <? mid) && bytes_eqb p1 (key (nth (Z.to_nat (mid - 1)) l [])) then walk_back f p1 l (mid - 1) else mid
+  end.
+Fixpoint bisect (fuel : nat) (p1 : bytes) (l : list bytes) (lo hi : Z) : Z :=
+  match fuel with
+  | O => -1
+  | S f =>
+      if hi <? lo then -1
+      else
+        let mid := (lo + hi) / 2 in
+        let p2 := key (nth (Z.to_nat mid) l []) in
+        if bytes_eqb p1 p2 then (match m with MOld => mid | MCur => walk_back (Z.to_nat mid) p1 l mid end)
+        else if bytes_ltb p2 p1 then bisect f p1 l (mid + 1) hi
+        else bisect f p1 l lo (mid - 1)
+  end.
+Definition find_name (name : bytes) (l : list bytes) : Z :=
+  let p1 := key name in
+  let hi := lenZ l - 1 in
+  if bytes_eqb p1 (key (nth 0 l [])) then 0
+  else if (match m with MOld => true | MCur => false end) && bytes_eqb p1 (key (nth (Z.to_nat hi) l [])) then hi
+  else bisect (S (length l)) p1 l 0 hi.
+(* what the search is FOR: the position of the first entry with that key, -1 when there is none *)
+Fixpoint find_scan_from (p1 : bytes) (l : list bytes) (i : Z) : Z :=
   match l with
   | [] => -1
-  | y :: rest => if bytes_eqb name y then i else find_name_from name rest (i + 1)
+  | y :: rest => if bytes_eqb p1 (key y) then i else find_scan_from p1 rest (i + 1)
   end.
-Definition find_name (name : bytes) (l : list bytes) : Z := find_name_from name l 0.
+Definition find_scan (name : bytes) (l : list bytes) : Z := find_scan_from (key name) l 0.
+End SortBy.
 
 Definition slash (a b : bytes) : bytes := a ++ 47 :: b.
 (* if (0 == strcmp (name, "/")) name = ""; *)
@@ -393,31 +455,43 @@ Definition unroot (name : bytes) : bytes := if bytes_eqb name [47] then [] else 
 (* sprintf (path, "%s/%s", name, p) into char path[1024] *)
 Definition path_fits (name p : bytes) : bool := lenZ name + 1 + lenZ p + 1 <=? 1024.
 
-(* the matching loop, cgnsdiff.c:352-376; [rec p q] compares child p of the first with child q of the second node *)
+(* the matching loop, cgnsdiff.c:352-392; [rec p q] compares child p of the first with child q of the second node;
+   [kfind] is the key find_name searches with *)
 Section DiffLoop.
+Variable m : mver.
 Variable chk : bool.            (* paths are built in char[1024] (before e3072bd) *)
+Variable kfind : bytes -> bytes.
 Variable rec : bytes -> bytes -> list dline.
 Variables (c2 : list bytes) (nm1 nm2 : bytes).
 Fixpoint diff_loop (l1 : list bytes) (n2_ : Z) {struct l1} : list dline :=
   match l1 with
   | [] => map (fun q => DRight (slash nm2 q)) (skipn (Z.to_nat n2_) c2)
   | p :: rest =>
-      let nret := find_name p c2 in
+      (* MOld: nret = find_name (p, nc2, children2);
+         MCur: nret = n2 < nc2 ? find_name (p, nc2 - n2, &children2[33*n2]) : -1;  if (nret >= 0) nret += n2; *)
+      let nret := match m with
+                  | MOld => find_name MOld kfind p c2
+                  | MCur => if n2_ <? lenZ c2
+                            then (let r := find_name MCur kfind p (skipn (Z.to_nat n2_) c2) in if 0 <=? r then r + n2_ else r)
+                            else -1
+                  end in
       if nret <? 0 then DLeft (slash nm1 p) :: diff_loop rest n2_
       else
         let gap := firstn (Z.to_nat (nret - n2_)) (skipn (Z.to_nat n2_) c2) in
         let n2' := Z.max n2_ nret in
-        let q := nth (Z.to_nat n2') c2 [] in
         map (fun q => DRight (slash nm2 q)) gap ++
-        (if negb chk || (path_fits nm1 p && path_fits nm2 q) then rec p q ++ diff_loop rest (n2' + 1)
-         else [DPathOverflow])
+        (if lenZ c2 <=? n2' then [DOutOfBounds]                 (* p = &children2[33*n2] past the array *)
+         else
+           let q := nth (Z.to_nat n2') c2 [] in
+           if negb chk || (path_fits nm1 p && path_fits nm2 q) then rec p q ++ diff_loop rest (n2' + 1)
+           else [DPathOverflow])
   end.
 End DiffLoop.
 
 Section Diff.
 Variable v : ver.
-Variable node_data : bool.      (* -d *)
-Variable follow : bool.         (* -f *)
+Variable m : mver.
+Variable o : dopts.
 Variable w1 w2 : world.
 
 Fixpoint compare_nodes (fuel : nat) (name1 : bytes) (cf1 : bytes) (n1 : node)
@@ -429,18 +503,19 @@ Fixpoint compare_nodes (fuel : nat) (name1 : bytes) (cf1 : bytes) (n1 : node)
       | Some (f1, r1), Some (f2, r2) =>
           (* since 39f8525: if (strcmp (name1, "/") || strcmp (name2, "/")) compare_data (...) *)
           let out := if (match v with Cur => true | Old => false end) && bytes_eqb name1 [47] && bytes_eqb name2 [47]
-                     then [] else compare_data node_data name1 name2 r1 r2 in
-          if negb follow && (is_link n1 || is_link n2) then out
+                     then [] else compare_data (d_data o) name1 name2 r1 r2 in
+          if negb (d_recurse o) then out                                   (* if (!recurse) return; *)
+          else if negb (d_follow o) && (is_link n1 || is_link n2) then out
           else
-            let c1 := sort_names (map node_name (kids_of r1)) in
-            let c2 := sort_names (map node_name (kids_of r2)) in
+            let c1 := sort_names_by (sort_key o) (map node_name (kids_of r1)) in
+            let c2 := sort_names_by (sort_key o) (map node_name (kids_of r2)) in
             let nm1 := unroot name1 in
             let nm2 := unroot name2 in
             out ++
             (if is_nil c1 then map (fun q => DRight (slash nm2 q)) c2
              else if is_nil c2 then map (fun p => DLeft (slash nm1 p)) c1
              else
-               diff_loop (match v with Old => true | Cur => false end)
+               diff_loop m (match v with Old => true | Cur => false end) (find_key o)
                  (fun p q =>
                     match find_kid (kids_of r1) p, find_kid (kids_of r2) q with
                     | Some k1, Some k2 => compare_nodes f (slash nm1 p) f1 k1 (slash nm2 q) f2 k2
@@ -451,15 +526,40 @@ Fixpoint compare_nodes (fuel : nat) (name1 : bytes) (cf1 : bytes) (n1 : node)
       end
   end.
 
-(* main: compare_nodes ("/", root1, "/", root2) *)
+(* main without dataset arguments: recurse = 1; compare_nodes ("/", root1, "/", root2) *)
 Definition cgnsdiff (fuel : nat) (file1 file2 : bytes) : list dline :=
   match get_file w1 file1, get_file w2 file2 with
   | Some r1, Some r2 => compare_nodes fuel [47] file1 r1 [47] file2 r2
   | _, _ => [DErrExit]
   end.
 End Diff.
+Definition whole (o : dopts) : dopts := mkO (d_data o) (d_follow o) (d_case o) (d_space o) true.
 
-(* ---- equality of trees up to the order of children -------------------------------------------------------------------- *)
+(* main with dataset arguments: cgio_get_node_id (root, ds) on both files (err_exit when absent), then
+   compare_nodes (ds1, node1, ds2, node2) with recurse as given by -r.  [walk_path] resolves a path of names. *)
+Fixpoint walk_path (w : world) (cf : bytes) (n : node) (segs : list bytes) : option (bytes * node) :=
+  match segs with
+  | [] => Some (cf, n)
+  | s :: rest =>
+      match chase link_fuel w cf n with
+      | Some (cf', r) => match find_kid (kids_of r) s with
+                         | Some k => walk_path w cf' k rest
+                         | None => None
+                         end
+      | None => None
+      end
+  end.
+Definition cgnsdiff_ds (v : ver) (m : mver) (o : dopts) (w1 w2 : world) (fuel : nat) (file1 ds1 file2 ds2 : bytes) : list dline :=
+  match get_file w1 file1, get_file w2 file2 with
+  | Some r1, Some r2 =>
+      match walk_path w1 file1 r1 (split_path ds1 []), walk_path w2 file2 r2 (split_path ds2 []) with
+      | Some (c1, k1), Some (c2, k2) => compare_nodes v m o w1 w2 fuel ds1 c1 k1 ds2 c2 k2
+      | _, _ => [DErrExit]
+      end
+  | _, _ => [DErrExit]
+  end.
+
+(* ---- equality of trees up to the order of children and up to the normalisation of names --------------------------------- *)
 Fixpoint insert_node (x : node) (l : list node) : list node :=
   match l with
   | [] => [x]
@@ -467,10 +567,21 @@ Fixpoint insert_node (x : node) (l : list node) : list node :=
   end.
 Fixpoint sort_nodes (l : list node) : list node :=
   match l with [] => [] | x :: rest => insert_node x (sort_nodes rest) end.
-Fixpoint canon (n : node) : node :=
+(* every name replaced by its key, every child list sorted by (that) name; without -d the data are not looked at *)
+Fixpoint canon_by (key : bytes -> bytes) (keep_data : bool) (n : node) : node :=
   match n with
-  | Node nm l dt d da ks => Node nm l dt d da (sort_nodes (map canon ks))
-  | LinkNode _ _ _ => n
+  | Node nm l dt d da ks => Node (key nm) l dt d (if keep_data then da else []) (sort_nodes (map (canon_by key keep_data) ks))
+  | LinkNode nm f p => LinkNode (key nm) f p
+  end.
+Definition canon : node -> node := canon_by (fun x => x) true.
+(* sibling names stay distinct after normalisation, at every level *)
+Fixpoint keys_unique (key : bytes -> bytes) (n : node) : bool :=
+  match n with
+  | Node _ _ _ _ _ ks =>
+      (fix nd (l : list bytes) : bool :=
+         match l with [] => true | x :: r => negb (existsb (bytes_eqb x) r) && nd r end) (map (fun k => key (node_name k)) ks)
+      && forallb (keys_unique key) ks
+  | LinkNode _ _ _ => true
   end.
 
 (* ---- well-formed sources ------------------------------------------------------------------------------------------------ *)
